@@ -1578,7 +1578,11 @@ class CommandTask : public Task {
       // Execute the command, with notifications to the delegate.
       command.execute(getBuildSystem(ti).getBuildSystem(), ti, context, [ti](BuildValue&& result) mutable {
         // Inform the engine of the result.
-        if (result.isFailedCommand()) {
+        // A command that was interrupted although the build itself was not
+        // cancelled (e.g. its process was killed from outside) did not produce
+        // its outputs either: the build must not report success.
+        if (result.isFailedCommand() ||
+            (result.isCancelledCommand() && !ti.isCancelled())) {
           getBuildSystem(ti).getDelegate().hadCommandFailure();
         }
         ti.complete(result.toData());
